@@ -66,6 +66,7 @@ Holds0(ev, i, p) ==
     [] p = "C14corner" -> C14corner_OK(ev)
     [] p = "C05s" -> C05s_OK(ev)
     [] p = "C05box" -> C05box_OK(ev)
+    [] p = "C05multi" -> C05multi_OK(ev)
     [] p = "C06" -> C06_OK(ev, i)
     [] p = "C10" -> C10_OK(ev, i)
     [] p = "C11" -> C11_OK(ev, i)
@@ -102,7 +103,7 @@ NonTrivial(ev0, i, p) ==
     [] p = "C16legend" -> Len(ev.legend.entries) > 0
     [] p = "C16tags" -> Len(ev.tags) > 0
     [] p = "C05s" -> C05s_NT(ev)
-    [] p = "C05box" -> TRUE
+    [] p \in {"C05box", "C05multi"} -> TRUE
     [] p \in {"C06", "C10", "C11", "C17", "C16app"} -> Len(ev.doc.elems) > 0
     [] OTHER -> FALSE
 
